@@ -16,7 +16,7 @@ import (
 func init() {
 	Register(&Spec{
 		ID:          "C12",
-		Explanation: "Decides structural necessary conditions of ordered, capped, exactly-once local delivery: (R1) lock balance in package server on every CFG path, guarded-by for the Server/answerQueue/structReturner/returnEmbargoer fields, no application code (Method.Impl, Returner, Shutdowner, ReleaseArgs) and no blocking under Server.mu; (R2) the delivery gate Server.starting, once set, is cleared and its channel closed on every path out of start; (R3) the statement that occupies a slot is reached from every acquisition of Server.mu only through a test of srv.drain, with a slot index obtained from nextID; (R4) the call goroutine clears its slot, wakes a waiting start and closes drain only when draining and empty; (R5) every function that receives a capnp.Recv consumes its Returner exactly once on every path, the call goroutine returns exactly once; (R6) the user's Shutdown runs only after the drain wait and a second Shutdown panics. Does NOT decide ordering or the concurrency cap as numeric invariants over timings.",
+		Explanation: "Decides structural necessary conditions of ordered, capped, exactly-once local delivery: (R1) lock balance in package server on every CFG path, guarded-by for the Server/answerQueue/structReturner/returnEmbargoer fields, no application code (Method.Impl, Returner, Shutdowner, ReleaseArgs) and no blocking under Server.mu; (R2) the delivery gate Server.starting, once set, is cleared and its channel closed on every path out of start; (R3) the statement that occupies a slot is reached from every acquisition of Server.mu only through a test of srv.drain, with a slot index obtained from nextID; (R4) the call goroutine clears its slot, wakes a waiting start and closes drain only when draining and empty; (R5) every function that receives a capnp.Recv consumes its Returner exactly once on every path, the call goroutine returns exactly once; (R6) the user's Shutdown runs only after the drain wait and a second Shutdown panics. (R2b) after the call goroutine is started, every case of the wait that precedes the release of the delivery gate receives from one of the call's own channels (ack, done). Does NOT decide ordering or the concurrency cap as numeric invariants over timings.",
 		Run:         runC12,
 	})
 }
@@ -24,6 +24,7 @@ func init() {
 func serverScope(u *flow.Unit) bool { return strings.HasPrefix(u.Name, "server.") }
 
 func runC12(ctx *Ctx) {
+	ruleGateHeldUntilAckOrDone(ctx, "C12-R2b")
 	ruleLockBalance(ctx, "C12-R1", serverScope)
 	ruleLockContracts(ctx, "C12-R1c", func(n string) bool { return strings.HasPrefix(n, "server.") })
 	ruleGuardedBy(ctx, "C12-R1g", func(g guardedField) bool { return g.pkg == "server" })
@@ -275,7 +276,11 @@ func ruleServerSlotRelease(ctx *Ctx, rule string) {
 	pathCheck(ctx, a, rule, "call goroutine | slot freed on every path", g, g.Entry(), g.Pos, isFree, nil, "srv.ongoing[id] = cstate{}: otherwise the slot stays occupied and the server eventually refuses all calls")
 	isImpl := func(m ast.Node) bool {
 		c, ok := m.(*ast.CallExpr)
-		return ok && strings.HasPrefix(dynamicCallee(info, c), "func value m.Impl")
+		if !ok {
+			return false
+		}
+		d := dynamicCallee(info, c)
+		return strings.HasPrefix(d, "func value ") && strings.HasSuffix(d, ".Impl")
 	}
 	noPathCheck(ctx, a, rule, "call goroutine | slot freed only after the implementation returned", g, g.Entry(), g.Pos, isFree, isImpl,
 		"the slot can be freed before the method implementation ran", "every path to the slot release passes the call of m.Impl")
@@ -285,8 +290,17 @@ func ruleServerSlotRelease(ctx *Ctx, rule string) {
 		if !ok || !isBuiltinCall(info, c, "close", nil) || len(c.Args) != 1 {
 			return false
 		}
+		// a channel held in a local of start (done), not a field of the server
 		id, ok := ast.Unparen(c.Args[0]).(*ast.Ident)
-		return ok && id.Name == "done"
+		if !ok {
+			return false
+		}
+		v, isVar := info.ObjectOf(id).(*types.Var)
+		if !isVar || v.IsField() {
+			return false
+		}
+		_, isChan := v.Type().Underlying().(*types.Chan)
+		return isChan
 	}
 	pathCheck(ctx, a, rule, "call goroutine | close(done) on every path", g, g.Entry(), g.Pos, isCloseLocal, nil, "close(done): start would wait forever when the implementation never acks")
 	// SSA guards of close(srv.drain) and close(srv.full) in the goroutine
